@@ -63,15 +63,15 @@ type PanicRec struct {
 type Sim struct {
 	T *Tape
 
-	mu      sync.Mutex
-	parked  []*waiter
-	arrive  chan struct{}
-	tasks   map[uint64]*Task
-	events  []string
-	viols   []Violation
-	panics  []PanicRec
-	stats   map[string]int
-	idNames map[string]string
+	mu       sync.Mutex
+	parked   []*waiter
+	arrive   chan struct{}
+	tasks    map[uint64]*Task
+	events   []string
+	viols    []Violation
+	panics   []PanicRec
+	stats    map[string]int
+	idNames  map[string]string
 	anonKids map[string]int
 
 	step     int
@@ -681,6 +681,15 @@ func (s *Sim) Run(idle time.Duration, done func() bool) StepResult {
 			}
 			return r
 		}
+	}
+}
+
+// AdoptCur is Adopt on the current simulation (no-op outside one). Inserted by
+// the overlay where a dependency starts a goroutine that then enters
+// instrumented code (go-smtp's BDAT data goroutine).
+func AdoptCur(name string) {
+	if s := Cur(); s != nil {
+		s.Adopt(name)
 	}
 }
 
